@@ -654,6 +654,11 @@ func runConc(args []string) {
 		sa = 3
 	}
 	storeAcc(seed, sa, want, enc)
+	cn := rounds
+	if cn > 2 && os.Getenv("VERIF_TIER") != "thorough" {
+		cn = 2
+	}
+	counters(seed, cn, want, enc)
 	bv := rounds
 	if bv > 3 && os.Getenv("VERIF_TIER") != "thorough" {
 		bv = 3
